@@ -435,3 +435,67 @@ pub proof fn lemma_sum_nonneg(l: Seq<Node>)
   ensures sum_sizes(l) >= 0
   decreases l.len()
 { if l.len() > 0 { lemma_sum_nonneg(l.remove(0)); } }
+
+pub proof fn lemma_nodes_below(a: AV, s: SV)
+  requires nodes_ok(a, s)
+  ensures
+    forall|k: int| 0 <= k < s.list.len() ==> ((#[trigger] s.list[k]).0 as int + 8 <= s.allocated),
+    clear_of_list(s.list, s.allocated, a.cap),
+{
+  assert forall|k: int| 0 <= k < s.list.len() implies ((#[trigger] s.list[k]).0 as int + 8 <= s.allocated) by { assert(node_ok(a, s, s.list[k])); }
+  assert forall|k: int| 0 <= k < s.list.len() implies node_end(#[trigger] s.list[k]) <= s.allocated || a.cap <= s.list[k].0 as int by { assert(node_ok(a, s, s.list[k])); }
+}
+
+pub proof fn lemma_seg_valid_extent(a: AV, s: SV, offset: int, size: int)
+  requires geom(a, s), extent_ok(a, s, offset, size)
+  ensures seg_valid(s, offset, size) ==> a.data_offset <= offset && offset + size <= s.allocated && clear_of_list(s.list, offset, offset + size)
+{}
+
+
+pub proof fn lemma_clear_narrow(l: Seq<Node>, lo: int, hi: int, lo2: int, hi2: int)
+  requires clear_of_list(l, lo, hi), lo <= lo2, hi2 <= hi
+  ensures clear_of_list(l, lo2, hi2)
+{
+  assert forall|i: int| 0 <= i < l.len() implies node_end(#[trigger] l[i]) <= lo2 || hi2 <= l[i].0 as int by {
+    let x = l[i]; assert(node_end(x) <= lo || hi <= x.0 as int);
+  }
+}
+
+pub proof fn lemma_align_up_props(x: int, a: int)
+  requires a > 0, x >= 0
+  ensures align_up(x, a) >= x, align_up(x, a) - x < a, align_up(x, a) % a == 0
+{
+  vstd::arithmetic::div_mod::lemma_fundamental_div_mod(x, a);
+  if x % a != 0 {
+    let q = x / a;
+    assert(x + (a - x % a) == a * (q + 1)) by (nonlinear_arith) requires x == a * q + x % a;
+    vstd::arithmetic::div_mod::lemma_mod_multiples_basic(q + 1, a);
+    assert((a * (q + 1)) % a == 0) by { assert(a * (q + 1) == (q + 1) * a) by (nonlinear_arith); }
+  }
+}
+
+pub proof fn lemma_free_grows_insert(s0: SV, s1: SV, j: int, n: Node, lo: int, hi: int)
+  requires s1.allocated == s0.allocated, 0 <= j <= s0.list.len(), s1.list == s0.list.insert(j, n), lo <= n.0 as int, node_end(n) <= hi
+  ensures free_grows(s0, s1, lo, hi)
+{
+  lemma_in_list_insert(s0.list, j, n);
+  assert forall|b: int| #[trigger] in_free(s1, b) implies in_free(s0, b) || lo <= b < hi by {
+    if b < s1.allocated { assert(in_list(s1.list, b)); }
+  }
+}
+
+/// release of the topmost allocation: moving the cursor back to `offset` keeps the invariant
+pub proof fn lemma_dealloc_top(a: AV, s0: SV, s1: SV, offset: int, size: int)
+  requires wf(a, s0), extent_ok(a, s0, offset, size), s0.allocated == offset + size, s1 == (SV { allocated: offset, ..s0 })
+  ensures wf(a, s1), free_grows(s0, s1, offset, offset + size), frame_ok(s0.list, s0.bytes, s1.bytes, offset, offset + size)
+{
+  assert(offset >= a.data_offset);
+  assert forall|k: int| 0 <= k < s1.list.len() implies node_ok(a, s1, #[trigger] s1.list[k]) by {
+    let x = s0.list[k];
+    assert(node_ok(a, s0, x));
+    assert(node_end(x) <= offset || offset + size <= x.0 as int);
+  }
+  assert forall|k: int| -1 <= k < s1.list.len() implies word(s1, #[trigger] cell_of(s1.list, k)) == enc(size_of_cell(s1.list, k), next_of(s1.list, k)) by {
+    assert(word(s0, cell_of(s0.list, k)) == enc(size_of_cell(s0.list, k), next_of(s0.list, k)));
+  }
+}
